@@ -253,4 +253,16 @@ Module Ex.
     is_ok (l_call CTL st2 (CallCtl 1001 (CTransfer ordi 1002 10))) = true /\
     l_query (l_apply CTL st2 (CallCtl 1001 (CTransfer ordi 1002 10))) (QCtlAllowance ordi 1001 CTL) = Ok 15.
   Proof. vm_compute. repeat split. Qed.
+
+  (* the proposed fix (docs/proposed_fixes/C07_controller_transfer.diff): route the controller's
+     transfer through the 4-argument overload with spender = owner; then no allowance is
+     needed or used *)
+  Example C07_controller_transfer_fix_sketch :
+    let st := run [ODeposit alice ORDI 100] in
+    let st' := l_tok_call CTL st ordi (TTransferFromO 1001 1001 1002 10) in
+    match st' with
+    | Ok s => balance s ordi 1001 = 90 /\ balance s ordi 1002 = 10 /\ supply s ordi = Some 100
+    | _ => False
+    end.
+  Proof. vm_compute. repeat split. Qed.
 End Ex.
